@@ -10,14 +10,18 @@ import (
 	"github.com/bandprotocol/bandchain-packet/obi"
 	"github.com/bandprotocol/bandchain-packet/packet"
 	chain "github.com/comdex-official/comdex/app"
+	"github.com/comdex-official/comdex/app/wasm/bindings"
+	"github.com/comdex-official/comdex/x/asset"
 	assettypes "github.com/comdex-official/comdex/x/asset/types"
 	"github.com/comdex-official/comdex/x/bandoracle"
 	bandtypes "github.com/comdex-official/comdex/x/bandoracle/types"
 	"github.com/comdex-official/comdex/x/market"
+	markettypes "github.com/comdex-official/comdex/x/market/types"
 	abci "github.com/cometbft/cometbft/abci/types"
 	tmproto "github.com/cometbft/cometbft/proto/tendermint/types"
 	sdk "github.com/cosmos/cosmos-sdk/types"
 	channeltypes "github.com/cosmos/ibc-go/v7/modules/core/04-channel/types"
+	porttypes "github.com/cosmos/ibc-go/v7/modules/core/05-port/types"
 )
 
 const c17Channel = "channel-7"
@@ -35,160 +39,607 @@ func c17BandState(app *chain.App, ctx sdk.Context) string {
 		dd.BlockHeight, b(dd.DiscardBool), b(k.GetOracleValidationResult(ctx)))
 }
 
-func c17Books(app *chain.App, ctx sdk.Context, ids []uint64) string {
+// every stored window (listed assets and any other key), as the store iterates them
+func c17Books(app *chain.App, ctx sdk.Context) string {
 	var out []string
-	for _, id := range ids {
-		twa, found := app.MarketKeeper.GetTwa(ctx, id)
-		if found {
-			out = append(out, u(id)+"@"+twaState(twa, true))
-		}
+	for _, twa := range app.MarketKeeper.GetAllTwa(ctx) {
+		out = append(out, u(twa.AssetID)+"@"+twaState(twa, true))
 	}
 	return strings.Join(out, "|")
 }
 
-// TestC17Feed drives the REAL begin-blockers of x/bandoracle and x/market, the real IBC acknowledgment / response
-// handlers of the band module and the real CalcAssetPrice over generated feeds: asset lists with and without
-// oracle-priced assets, result lists shorter and longer than the list, zero rates, outages of the oracle shorter and
-// longer than the accepted gap, blocks that are and are not sampling blocks.
+type c17Asset struct {
+	id       uint64
+	name     string
+	denom    string
+	required bool
+	extPair  uint64 // extended pair with this asset as collateral and a fixed-price debt side (0 = none)
+}
+
+type c17World struct {
+	t      *testing.T
+	tr     *Trace
+	rng    *Rng
+	app    *chain.App
+	ctx    sdk.Context
+	assets []c17Asset
+	nNames int
+	debtID uint64
+}
+
+func (w *c17World) refreshAssets() {
+	old := map[uint64]c17Asset{}
+	for _, a := range w.assets {
+		old[a.id] = a
+	}
+	w.assets = w.assets[:0]
+	for _, a := range w.app.AssetKeeper.GetAssets(w.ctx) {
+		w.assets = append(w.assets, c17Asset{id: a.Id, name: a.Name, denom: a.Denom, required: a.IsOraclePriceRequired, extPair: old[a.Id].extPair})
+	}
+}
+
+func (w *c17World) assetList() string {
+	var out []string
+	for _, a := range w.assets {
+		out = append(out, fmt.Sprintf("%d:%v", a.id, a.required))
+	}
+	return strings.Join(out, ",")
+}
+
+func (w *c17World) nRequired() int {
+	n := 0
+	for _, a := range w.assets {
+		if a.required {
+			n++
+		}
+	}
+	return n
+}
+
+// a vault product on (asset → fixed-price debt asset): CalculateCollateralizationRatio then values ONLY the collateral through the oracle
+func (w *c17World) addProduct(a *c17Asset) {
+	if err := w.app.AssetKeeper.AddPairsRecords(w.ctx, assettypes.Pair{AssetIn: a.id, AssetOut: w.debtID}); err != nil {
+		w.t.Fatal(err)
+	}
+	pairs := w.app.AssetKeeper.GetPairs(w.ctx)
+	ep := bindings.MsgAddExtendedPairsVault{AppID: 1, PairID: pairs[len(pairs)-1].Id, StabilityFee: sdk.ZeroDec(), ClosingFee: sdk.ZeroDec(),
+		LiquidationPenalty: sdk.ZeroDec(), DrawDownFee: sdk.ZeroDec(), IsVaultActive: true, DebtCeiling: sdk.NewInt(1000000000000), DebtFloor: sdk.NewInt(1),
+		MinCr: sdk.MustNewDecFromStr("1.5"), PairName: "P" + a.name, AssetOutOraclePrice: false, AssetOutPrice: 1000000}
+	if err := w.app.AssetKeeper.WasmAddExtendedPairsVaultRecords(w.ctx, &ep); err != nil {
+		w.t.Fatal(err)
+	}
+	a.extPair = w.app.AssetKeeper.GetPairsVaultID(w.ctx)
+}
+
+// the FetchPriceProposal through its real governance route: ValidateBasic (as gov's submit does), then the module's proposal handler
+func (w *c17World) proposal(N uint64, acc int64, script uint64) error {
+	p := &bandtypes.FetchPriceProposal{Title: "fetch price", Description: "fetch price", FetchPrice: bandtypes.MsgFetchPriceData{
+		Creator: "bandoracle", OracleScriptID: script, SourceChannel: c17Channel, AskCount: 1, MinCount: 1,
+		FeeLimit: sdk.NewCoins(sdk.NewCoin("uband", sdk.NewInt(1))), PrepareGas: 1, ExecuteGas: 1, ClientID: bandtypes.FetchPriceClientIDKey,
+		TwaBatchSize: N, AcceptedHeightDiff: acc}}
+	if err := p.ValidateBasic(); err != nil {
+		return err
+	}
+	cctx, write := w.ctx.CacheContext()
+	if err := bandoracle.NewFetchPriceHandler(w.app.BandoracleKeeper)(cctx, p); err != nil {
+		return err
+	}
+	write()
+	return nil
+}
+
+func outcome(panicked bool, ok bool) string {
+	switch {
+	case panicked:
+		return "panic"
+	case ok:
+		return "ok"
+	}
+	return "err"
+}
+
+// every kind of consumer of an asset's price, on the real keepers
+func (w *c17World) readers(a c17Asset, tag string) {
+	ctx, tr := w.ctx, w.tr
+	line := func(name string, panicked, ok bool) {
+		o := outcome(panicked, ok)
+		tr.Line("feed.reader", name, u(a.id), "true", o)
+		tr.Count("reader:" + name + ":" + o)
+		tr.Count("reader-after:" + tag + ":" + o)
+	}
+	var err error
+	p, _ := try(func() { _, err = w.app.MarketKeeper.CalcAssetPrice(ctx, a.id, sdk.NewInt(1)) })
+	line("calc", p, err == nil)
+	p, _ = try(func() { _, err = w.app.MarketKeeper.GetLatestPrice(ctx, a.id) })
+	line("latest", p, err == nil)
+	if a.extPair != 0 {
+		p, _ = try(func() { _, err = w.app.VaultKeeper.CalculateCollateralizationRatio(ctx, a.extPair, sdk.NewInt(1), sdk.NewInt(1)) })
+		line("vaultRatio", p, err == nil)
+	}
+	var found bool
+	p, _ = try(func() { _, found = w.app.Rewardskeeper.OraclePrice(ctx, a.denom) })
+	line("rewardsOracle", p, found)
+	p, _ = try(func() { _, err = w.app.LiquidityKeeper.CalcAssetPrice(ctx, a.id, sdk.NewInt(1)) })
+	line("liqCalc", p, err == nil)
+	p, _ = try(func() { _, found, _ = w.app.LiquidityKeeper.OraclePrice(ctx, a.denom) })
+	line("liqOracle", p, found)
+	p, _ = try(func() { _, found = w.app.Rewardskeeper.OraclePriceForRewards(ctx, a.id, sdk.NewInt(1)) })
+	line("rewardsPrice", p, found)
+}
+
+// an id that is no asset: the market readers by id refuse it whatever is stored under it
+func (w *c17World) readersUnlisted(id uint64) {
+	var err error
+	p, _ := try(func() { _, err = w.app.MarketKeeper.CalcAssetPrice(w.ctx, id, sdk.NewInt(1)) })
+	w.tr.Line("feed.reader", "calc", u(id), "false", outcome(p, err == nil))
+	w.tr.Count("reader:calc-unlisted:" + outcome(p, err == nil))
+}
+
+// noise delivers one malformed / foreign packet or proposal through the real handlers; the band state and the stored results must not move
+func (w *c17World) noise(ibc porttypes.IBCModule, reqID int64) {
+	ctx, app := w.ctx, w.app
+	fake := uint64(reqID + 1000)
+	calldata := obi.MustEncode(bandtypes.FetchPriceCallData{Symbols: []string{"A"}, Multiplier: 1000000})
+	goodReq := packet.NewOracleRequestPacketData(bandtypes.FetchPriceClientIDKey, 12, calldata, 1, 1, sdk.NewCoins(), 1, 1)
+	okAck := channeltypes.NewResultAcknowledgement(bandtypes.ModuleCdc.MustMarshalJSON(packet.NewOracleRequestPacketAcknowledgement(fake)))
+	mk := func(data []byte) channeltypes.Packet {
+		return channeltypes.Packet{SourceChannel: c17Channel, DestinationChannel: c17Channel, Data: data}
+	}
+	kind := ""
+	switch w.rng.Intn(8) {
+	case 0:
+		kind = "ack:error-acknowledgement"
+		e := channeltypes.NewErrorAcknowledgement(fmt.Errorf("oracle script failed"))
+		_ = ibc.OnAcknowledgementPacket(ctx, mk(bandtypes.ModuleCdc.MustMarshalJSON(&goodReq)), bandtypes.ModuleCdc.MustMarshalJSON(&e), nil)
+	case 1:
+		kind = "ack:foreign-client-id"
+		rp := packet.NewOracleRequestPacketData("someone_else", 12, calldata, 1, 1, sdk.NewCoins(), 1, 1)
+		_ = ibc.OnAcknowledgementPacket(ctx, mk(bandtypes.ModuleCdc.MustMarshalJSON(&rp)), bandtypes.ModuleCdc.MustMarshalJSON(&okAck), nil)
+	case 2:
+		kind = "ack:undecodable-request"
+		_ = ibc.OnAcknowledgementPacket(ctx, mk([]byte("{")), bandtypes.ModuleCdc.MustMarshalJSON(&okAck), nil)
+	case 3:
+		kind = "ack:undecodable-calldata"
+		rp := packet.NewOracleRequestPacketData(bandtypes.FetchPriceClientIDKey, 12, []byte{1}, 1, 1, sdk.NewCoins(), 1, 1)
+		_ = ibc.OnAcknowledgementPacket(ctx, mk(bandtypes.ModuleCdc.MustMarshalJSON(&rp)), bandtypes.ModuleCdc.MustMarshalJSON(&okAck), nil)
+	case 4:
+		kind = "resp:foreign-client-id"
+		resp := packet.OracleResponsePacketData{ClientID: "someone_else", RequestID: fake, AnsCount: 1, ResolveStatus: 1,
+			Result: obi.MustEncode(bandtypes.FetchPriceResult{Rates: []uint64{1, 2, 3}})}
+		ibc.OnRecvPacket(ctx, mk(bandtypes.ModuleCdc.MustMarshalJSON(&resp)), nil)
+	case 5:
+		kind = "resp:undecodable-result"
+		resp := packet.OracleResponsePacketData{ClientID: bandtypes.FetchPriceClientIDKey, RequestID: fake, AnsCount: 1, ResolveStatus: 1, Result: []byte{0, 0, 0, 9, 1}}
+		ibc.OnRecvPacket(ctx, mk(bandtypes.ModuleCdc.MustMarshalJSON(&resp)), nil)
+	case 6:
+		kind = "resp:undecodable-packet"
+		ibc.OnRecvPacket(ctx, mk([]byte("{")), nil)
+	default:
+		kind = "proposal:foreign-content"
+		if err := bandoracle.NewFetchPriceHandler(app.BandoracleKeeper)(ctx, &assettypes.AddAssetsProposal{Title: "x", Description: "x"}); err == nil {
+			w.t.Fatal("the fetch-price route accepted a foreign proposal")
+		}
+	}
+	_, err := app.BandoracleKeeper.GetFetchPriceResult(ctx, bandtypes.OracleRequestID(fake))
+	w.tr.Line("feed.noise", kind, c17BandState(app, ctx), fmt.Sprint(err == nil), c17Books(app, ctx))
+	w.tr.Count("noise:" + kind)
+}
+
+type c17Plan struct {
+	corpus   bool
+	nAssets  int
+	allReq   bool
+	N0       uint64
+	acc      int64
+	genesis  bool
+	reconfAt map[int][3]uint64 // step → (N', acc', script id)
+	outageAt map[int]bool      // step → no request is acknowledged before this block
+	clean    bool              // no outages, full positive responses
+}
+
+// TestC17Feed drives the REAL begin-blockers of x/bandoracle and x/market, the real IBC acknowledgment / response handlers of the band
+// module, the real FetchPriceProposal handler (several times per history: the window size grows, shrinks, stays), the real asset
+// proposals (an asset added / its oracle flag toggled), the real genesis import of stored windows, and every kind of consumer of a price.
 func TestC17Feed(t *testing.T) {
 	tr := OpenTrace(t, "c17feed.trace")
 	defer tr.Close(t)
 	rng := NewRng(seed() + 17)
 	seqs := scale(60, 600)
+	steps := scale(40, 120)
+	// corpus first: the history of seeded change s91 (window 3 → 5 with the ring at phase 2), then shrinking 5 → 2 and re-installing 4 → 4,
+	// each at a step where every window is full and active; script id 112 (no asset id) and script id 1 (= an asset id)
+	corpus := []c17Plan{
+		// (step 4 is an oracle outage of one round: the price is switched off with its last average still stored — the witness of finding D35:
+		// three reward-weighting readers hand that average out)
+		{corpus: true, nAssets: 1, allReq: true, N0: 3, acc: 60, clean: true, reconfAt: map[int][3]uint64{9: {5, 60, 112}}, outageAt: map[int]bool{4: true}},
+		{corpus: true, nAssets: 2, allReq: true, N0: 5, acc: 60, clean: true, reconfAt: map[int][3]uint64{9: {2, 60, 112}}},
+		{corpus: true, nAssets: 3, allReq: true, N0: 4, acc: 40, clean: true, reconfAt: map[int][3]uint64{8: {4, 40, 1}, 16: {1, 40, 2}, 22: {6, 100, 112}}},
+	}
 	for s := 0; s < seqs; s++ {
-		app := chain.Setup(t, false)
-		height := int64(1 + rng.Intn(30))
-		ctx := app.BaseApp.NewContext(false, tmproto.Header{Height: height})
-		nAssets := 1 + rng.Intn(6)
-		var ids []uint64
-		var required []bool
-		for i := 0; i < nAssets; i++ {
-			req := rng.Chance(70)
-			if err := app.AssetKeeper.AddAssetRecords(ctx, assettypes.Asset{Name: alphaName(i), Denom: "ua" + u(uint64(i)), Decimals: sdk.NewInt(1),
-				IsOnChain: true, IsOraclePriceRequired: req}); err != nil {
-				t.Fatal(err)
-			}
-		}
-		for _, a := range app.AssetKeeper.GetAssets(ctx) {
-			ids = append(ids, a.Id)
-			required = append(required, a.IsOraclePriceRequired)
-		}
-		N := uint64(1 + rng.Intn(4))
-		if rng.Chance(10) {
-			N = uint64(5 + rng.Intn(8))
-		}
-		acc := int64([]int{20, 40, 60, 100, 1}[rng.Intn(5)])
-		tr.Line("feed.begin", u(N), i64(acc))
-		nReq := 0
-		for i, id := range ids {
-			tr.Line("feed.asset", u(id), fmt.Sprint(required[i]))
-			if required[i] {
-				nReq++
-			}
-		}
-		msg := bandtypes.MsgFetchPriceData{Creator: "x", OracleScriptID: 12, SourceChannel: c17Channel, AskCount: 1, MinCount: 1,
-			FeeLimit: sdk.NewCoins(sdk.NewCoin("uband", sdk.NewInt(1))), PrepareGas: 1, ExecuteGas: 1, ClientID: bandtypes.FetchPriceClientIDKey,
-			TwaBatchSize: N, AcceptedHeightDiff: acc}
-		if rng.Chance(85) {
-			if err := app.BandoracleKeeper.AddFetchPriceRecords(ctx, msg); err != nil {
-				t.Fatal(err)
-			}
-			tr.Line("feed.configure", i64(height))
+		var plan c17Plan
+		if s < len(corpus) {
+			plan = corpus[s]
 		} else {
-			app.BandoracleKeeper.SetFetchPriceMsg(ctx, msg) // parameters known, feed never switched on: lastBlock stays 0
-			tr.Count("feed:not-configured")
-		}
-		ibc := bandoracle.NewIBCModule(app.BandoracleKeeper)
-		reqID := int64(0)
-		outage := 0
-		steps := scale(40, 120)
-		for i := 0; i < steps; i++ {
-			// the next block: mostly the next sampling block, sometimes one in between
-			if rng.Chance(80) {
-				height = (height/20 + 1) * 20
-			} else {
-				height += int64(1 + rng.Intn(19))
+			plan = c17Plan{nAssets: 1 + rng.Intn(6), N0: uint64(1 + rng.Intn(4)), acc: int64([]int{20, 40, 60, 100, 1}[rng.Intn(5)]),
+				genesis: rng.Chance(20), reconfAt: map[int][3]uint64{}}
+			if rng.Chance(10) {
+				plan.N0 = uint64(5 + rng.Intn(8))
 			}
-			ctx = ctx.WithBlockHeight(height)
-			// what happened since the previous block: a request acknowledged (new id), its response, or an outage
-			if outage > 0 {
-				outage--
-				tr.Count("feed:outage-block")
-			} else if rng.Chance(8) {
-				outage = 1 + rng.Intn(8)
-			} else if rng.Chance(88) {
-				reqID++
-				ackData := bandtypes.ModuleCdc.MustMarshalJSON(packet.NewOracleRequestPacketAcknowledgement(uint64(reqID)))
-				ack := channeltypes.NewResultAcknowledgement(ackData)
-				calldata := obi.MustEncode(bandtypes.FetchPriceCallData{Symbols: []string{"A"}, Multiplier: 1000000})
-				rp := packet.NewOracleRequestPacketData(bandtypes.FetchPriceClientIDKey, 12, calldata, 1, 1, sdk.NewCoins(), 1, 1)
-				pk := channeltypes.Packet{SourceChannel: c17Channel, DestinationChannel: c17Channel, Data: bandtypes.ModuleCdc.MustMarshalJSON(&rp)}
-				if err := ibc.OnAcknowledgementPacket(ctx, pk, bandtypes.ModuleCdc.MustMarshalJSON(&ack), nil); err != nil {
-					t.Fatal(err)
-				}
-				if got := app.BandoracleKeeper.GetLastFetchPriceID(ctx); got != reqID {
-					t.Fatalf("acknowledgment did not set the last request id: %d != %d", got, reqID)
-				}
-				tr.Line("feed.ack", i64(reqID))
-				if rng.Chance(92) {
-					// the oracle's response: a rate list shorter / equal / longer than the list of oracle-priced assets
-					n := nReq
+		}
+		c17FeedSequence(t, tr, rng, plan, steps)
+	}
+}
+
+func c17FeedSequence(t *testing.T, tr *Trace, rng *Rng, plan c17Plan, steps int) {
+	app := chain.Setup(t, false)
+	height := int64(1 + rng.Intn(30))
+	if plan.corpus {
+		height = 10
+	}
+	w := &c17World{t: t, tr: tr, rng: rng, app: app, ctx: app.BaseApp.NewContext(false, tmproto.Header{Height: height})}
+	if err := app.AssetKeeper.AddAppRecords(w.ctx, assettypes.AppData{Name: "feed", ShortName: "feed", MinGovDeposit: sdk.NewInt(0)}); err != nil {
+		t.Fatal(err)
+	}
+	for i := 0; i < plan.nAssets; i++ {
+		req := plan.allReq || rng.Chance(70)
+		if err := app.AssetKeeper.AddAssetRecords(w.ctx, assettypes.Asset{Name: alphaName(w.nNames), Denom: "ua" + u(uint64(w.nNames)), Decimals: sdk.NewInt(1),
+			IsOnChain: true, IsOraclePriceRequired: req}); err != nil {
+			t.Fatal(err)
+		}
+		w.nNames++
+	}
+	// the fixed-price debt side of the vault products (listed, never oracle-priced)
+	if err := app.AssetKeeper.AddAssetRecords(w.ctx, assettypes.Asset{Name: "DEBT", Denom: "udebt", Decimals: sdk.NewInt(1), IsOnChain: true, IsCdpMintable: true}); err != nil {
+		t.Fatal(err)
+	}
+	w.refreshAssets()
+	w.debtID = w.assets[len(w.assets)-1].id
+	for i := range w.assets {
+		if w.assets[i].id != w.debtID {
+			w.addProduct(&w.assets[i])
+		}
+	}
+	N, acc := plan.N0, plan.acc
+	msg := bandtypes.MsgFetchPriceData{Creator: "x", OracleScriptID: 12, SourceChannel: c17Channel, AskCount: 1, MinCount: 1,
+		FeeLimit: sdk.NewCoins(sdk.NewCoin("uband", sdk.NewInt(1))), PrepareGas: 1, ExecuteGas: 1, ClientID: bandtypes.FetchPriceClientIDKey,
+		TwaBatchSize: N, AcceptedHeightDiff: acc}
+	configured := false
+	unlisted := uint64(0)
+	switch {
+	case plan.genesis:
+		// a chain started from a genesis file: stored windows of any shape (also under a key that is no asset), the band side keeps only its check
+		// flag; the feed stays unconfigured until a proposal passes
+		tr.Line("feed.begin", "0", "0")
+		tr.Count("feed:genesis")
+	case plan.corpus || rng.Chance(85):
+		tr.Line("feed.begin", "0", "0")
+	default:
+		app.BandoracleKeeper.SetFetchPriceMsg(w.ctx, msg) // parameters known, feed never switched on: lastBlock stays 0
+		tr.Line("feed.begin", u(N), i64(acc))
+		tr.Count("feed:not-configured")
+	}
+	for _, a := range w.assets {
+		tr.Line("feed.asset", u(a.id), fmt.Sprint(a.required))
+	}
+	if plan.genesis {
+		var recs []markettypes.TimeWeightedAverage
+		for _, a := range w.assets {
+			if rng.Chance(70) {
+				recs = append(recs, c17GenesisWindow(rng, a.id))
+			}
+		}
+		if rng.Chance(50) {
+			unlisted = uint64(len(w.assets) + 3 + rng.Intn(5))
+			recs = append(recs, c17GenesisWindow(rng, unlisted))
+		}
+		flag := rng.Chance(50)
+		market.InitGenesis(w.ctx, app.MarketKeeper, &markettypes.GenesisState{TimeWeightedAverage: recs})
+		bandoracle.InitGenesis(w.ctx, app.BandoracleKeeper, bandtypes.GenesisState{PortId: app.BandoracleKeeper.GetPort(w.ctx), Flag: flag,
+			Params: app.BandoracleKeeper.GetParams(w.ctx)})
+		tr.Line("feed.genesis", fmt.Sprint(flag), c17Books(app, w.ctx))
+	} else if plan.corpus || rng.Chance(85) {
+		if err := w.proposal(N, acc, 12); err != nil {
+			t.Fatal(err)
+		}
+		configured = true
+		tr.Line("feed.configure", i64(height), u(N), i64(acc), "12", c17BandState(app, w.ctx), c17Books(app, w.ctx))
+	}
+	// governance events of this history
+	reconfLeft, assetLeft := 0, 0
+	if !plan.corpus {
+		reconfLeft = []int{0, 1, 1, 2, 2, 3}[rng.Intn(6)]
+		if plan.genesis {
+			reconfLeft++
+		}
+		assetLeft = []int{0, 0, 1, 2}[rng.Intn(4)]
+	}
+	ibc := bandoracle.NewIBCModule(app.BandoracleKeeper)
+	reqID := int64(0)
+	outage := 0
+	lastEvent := "start"
+	for i := 0; i < steps; i++ {
+		// the next block: mostly the next sampling block, sometimes one in between
+		if plan.corpus || rng.Chance(80) {
+			height = (height/20 + 1) * 20
+		} else {
+			height += int64(1 + rng.Intn(19))
+		}
+		w.ctx = w.ctx.WithBlockHeight(height)
+		ctx := w.ctx
+		nReq := w.nRequired()
+		// what happened since the previous block: a request acknowledged (new id), its response, or an outage
+		if outage > 0 {
+			outage--
+			tr.Count("feed:outage-block")
+			if outage == 0 {
+				lastEvent = "outage"
+			}
+		} else if plan.outageAt[i] {
+			tr.Count("feed:outage-block")
+			lastEvent = "outage"
+		} else if !plan.clean && rng.Chance(8) {
+			outage = 1 + rng.Intn(8)
+		} else if plan.clean || rng.Chance(88) {
+			reqID++
+			ackData := bandtypes.ModuleCdc.MustMarshalJSON(packet.NewOracleRequestPacketAcknowledgement(uint64(reqID)))
+			ack := channeltypes.NewResultAcknowledgement(ackData)
+			calldata := obi.MustEncode(bandtypes.FetchPriceCallData{Symbols: []string{"A"}, Multiplier: 1000000})
+			rp := packet.NewOracleRequestPacketData(bandtypes.FetchPriceClientIDKey, 12, calldata, 1, 1, sdk.NewCoins(), 1, 1)
+			pk := channeltypes.Packet{SourceChannel: c17Channel, DestinationChannel: c17Channel, Data: bandtypes.ModuleCdc.MustMarshalJSON(&rp)}
+			if err := ibc.OnAcknowledgementPacket(ctx, pk, bandtypes.ModuleCdc.MustMarshalJSON(&ack), nil); err != nil {
+				t.Fatal(err)
+			}
+			if got := app.BandoracleKeeper.GetLastFetchPriceID(ctx); got != reqID {
+				t.Fatalf("acknowledgment did not set the last request id: %d != %d", got, reqID)
+			}
+			tr.Line("feed.ack", i64(reqID))
+			if plan.clean || rng.Chance(92) {
+				// the oracle's response: a rate list shorter / equal / longer than the list of oracle-priced assets
+				n := nReq
+				if !plan.clean {
 					switch rng.Intn(8) {
 					case 0:
 						n = rng.Intn(nReq + 1)
 					case 1:
 						n = nReq + 1 + rng.Intn(3)
 					}
-					rates := make([]uint64, n)
-					for j := range rates {
-						switch rng.Intn(10) {
-						case 0:
-							rates[j] = 0
-						case 1:
-							rates[j] = ^uint64(0) - uint64(rng.Intn(3))
-						default:
-							rates[j] = uint64(1 + rng.Intn(5_000_000))
-						}
+				}
+				rates := make([]uint64, n)
+				for j := range rates {
+					switch k := rng.Intn(10); {
+					case k == 0 && !plan.clean:
+						rates[j] = 0
+						lastEvent = "zero"
+					case k == 1 && !plan.clean:
+						rates[j] = ^uint64(0) - uint64(rng.Intn(3))
+					default:
+						rates[j] = uint64(1 + rng.Intn(5_000_000))
 					}
-					res := obi.MustEncode(bandtypes.FetchPriceResult{Rates: rates})
-					resp := packet.OracleResponsePacketData{ClientID: bandtypes.FetchPriceClientIDKey, RequestID: uint64(reqID), AnsCount: 1, RequestTime: 1, ResolveTime: 1,
-						ResolveStatus: 1, Result: res}
-					rpk := channeltypes.Packet{SourceChannel: c17Channel, DestinationChannel: c17Channel, Data: bandtypes.ModuleCdc.MustMarshalJSON(&resp)}
-					ibc.OnRecvPacket(ctx, rpk, nil)
-					if got, err := app.BandoracleKeeper.GetFetchPriceResult(ctx, bandtypes.OracleRequestID(reqID)); err != nil || len(got.Rates) != len(rates) {
-						t.Fatalf("response not stored: %v %v", err, got)
+				}
+				res := obi.MustEncode(bandtypes.FetchPriceResult{Rates: rates})
+				resp := packet.OracleResponsePacketData{ClientID: bandtypes.FetchPriceClientIDKey, RequestID: uint64(reqID), AnsCount: 1, RequestTime: 1, ResolveTime: 1,
+					ResolveStatus: 1, Result: res}
+				rpk := channeltypes.Packet{SourceChannel: c17Channel, DestinationChannel: c17Channel, Data: bandtypes.ModuleCdc.MustMarshalJSON(&resp)}
+				ibc.OnRecvPacket(ctx, rpk, nil)
+				got, err := app.BandoracleKeeper.GetFetchPriceResult(ctx, bandtypes.OracleRequestID(reqID))
+				switch {
+				case app.BandoracleKeeper.GetFetchPriceMsg(ctx).SourceChannel != c17Channel:
+					// no fetch-price message stored yet (chain started from genesis, no proposal so far): the response packet is refused
+					if err == nil {
+						t.Fatal("a response was stored although no fetch-price message is configured")
 					}
+					tr.Count("feed:resp-refused-unconfigured")
+				case err != nil || len(got.Rates) != len(rates):
+					t.Fatalf("response not stored: %v %v", err, got)
+				default:
 					tr.Line("feed.resp", i64(reqID), joinU(rates))
 					tr.Count(fmt.Sprintf("feed:resp:len-vs-required=%d", cmpInt(n, nReq)))
-				} else {
-					tr.Count("feed:ack-without-response")
 				}
-			}
-			if panicked, _ := try(func() { bandoracle.BeginBlocker(ctx, abci.RequestBeginBlock{}, app.BandoracleKeeper) }); panicked {
-				t.Fatal("bandoracle begin-blocker panicked")
-			}
-			tr.Line("feed.band", i64(height), c17BandState(app, ctx))
-			cctx, write := ctx.CacheContext()
-			panicked, _ := try(func() { market.BeginBlocker(cctx, abci.RequestBeginBlock{}, app.MarketKeeper, app.BandoracleKeeper, app.AssetKeeper) })
-			if panicked {
-				tr.Line("feed.market", i64(height), "panic", "-", "-")
-				tr.Count("feed:market:panic")
 			} else {
-				write()
-				tr.Line("feed.market", i64(height), "ok", c17BandState(app, ctx), c17Books(app, ctx, ids))
-			}
-			if rng.Chance(50) {
-				id := ids[rng.Intn(len(ids))]
-				_, err := app.MarketKeeper.CalcAssetPrice(ctx, id, sdk.NewInt(1))
-				o := "ok"
-				if err != nil {
-					o = "err"
-				}
-				tr.Line("feed.val", u(id), o)
-				tr.Count("feed:val:" + o)
+				tr.Count("feed:ack-without-response")
 			}
 		}
+		// malformed stream: packets and proposals that must change nothing (no request counts as acknowledged, no result is stored)
+		if !plan.corpus && rng.Chance(6) {
+			w.noise(ibc, reqID)
+		}
+		// the block: begin-blockers in the order of the app (bandoracle, then market)
+		dbBefore := app.BandoracleKeeper.GetDiscardData(ctx).DiscardBool
+		if panicked, _ := try(func() { bandoracle.BeginBlocker(ctx, abci.RequestBeginBlock{}, app.BandoracleKeeper) }); panicked {
+			t.Fatal("bandoracle begin-blocker panicked")
+		}
+		tr.Line("feed.band", i64(height), c17BandState(app, ctx))
+		if !dbBefore && app.BandoracleKeeper.GetDiscardData(ctx).DiscardBool {
+			lastEvent = "discard"
+			tr.Count("feed:discard-ordered")
+		}
+		cctx, write := ctx.CacheContext()
+		panicked, _ := try(func() { market.BeginBlocker(cctx, abci.RequestBeginBlock{}, app.MarketKeeper, app.BandoracleKeeper, app.AssetKeeper) })
+		if panicked {
+			tr.Line("feed.market", i64(height), "panic", "-", "-")
+			tr.Count("feed:market:panic")
+			return // the chain halts here
+		}
+		write()
+		tr.Line("feed.market", i64(height), "ok", c17BandState(app, ctx), c17Books(app, ctx))
+		for _, twa := range app.MarketKeeper.GetAllTwa(ctx) {
+			if twa.IsPriceActive {
+				tr.Count("state:active-window")
+			} else {
+				tr.Count("state:inactive-window")
+			}
+		}
+		// consumers
+		if rng.Chance(50) {
+			a := w.assets[rng.Intn(len(w.assets))]
+			_, err := app.MarketKeeper.CalcAssetPrice(ctx, a.id, sdk.NewInt(1))
+			o := "ok"
+			if err != nil {
+				o = "err"
+			}
+			tr.Line("feed.val", u(a.id), o)
+			tr.Count("feed:val:" + o)
+		}
+		if plan.corpus {
+			for _, a := range w.assets {
+				w.readers(a, lastEvent)
+			}
+		} else if rng.Chance(35) || lastEvent == "reconfigure" || lastEvent == "discard" {
+			w.readers(w.assets[rng.Intn(len(w.assets))], lastEvent)
+			if rng.Chance(30) {
+				id := uint64(len(w.assets) + 1 + rng.Intn(4))
+				if unlisted != 0 && rng.Chance(60) {
+					id = unlisted
+				}
+				w.readersUnlisted(id)
+			}
+		}
+		// governance at the end of the block: a fetch-price proposal passes
+		planned, isPlanned := plan.reconfAt[i]
+		if isPlanned || (reconfLeft > 0 && (rng.Chance(100*reconfLeft/(steps-i)+3) || (plan.genesis && !configured && i >= 3))) {
+			var N2 uint64
+			acc2 := acc
+			script := uint64(12)
+			if isPlanned {
+				N2, acc2, script = planned[0], int64(planned[1]), planned[2]
+			} else {
+				reconfLeft--
+				switch rng.Intn(3) {
+				case 0: // grow
+					N2 = N + uint64(1+rng.Intn(4))
+				case 1: // shrink
+					N2 = 1
+					if N > 1 {
+						N2 = uint64(1 + rng.Intn(int(N-1)))
+					}
+				default:
+					N2 = N
+				}
+				if rng.Chance(30) {
+					acc2 = int64([]int{20, 40, 60, 100, 1}[rng.Intn(5)])
+				}
+				switch rng.Intn(4) {
+				case 0:
+					script = 112 // no asset id
+				case 1:
+					script = w.assets[rng.Intn(len(w.assets))].id // an asset id
+				case 2:
+					if unlisted != 0 {
+						script = unlisted
+					}
+				}
+				if rng.Chance(8) {
+					// a proposal with window size 0 never reaches the handler
+					if err := w.proposal(0, acc2, script); err == nil {
+						t.Fatal("a proposal with TwaBatchSize 0 passed ValidateBasic")
+					}
+					tr.Count("reconf:N=0-refused")
+				}
+			}
+			// what the proposal finds
+			full, active, partial := 0, 0, 0
+			isAsset := false
+			for _, twa := range app.MarketKeeper.GetAllTwa(ctx) {
+				switch {
+				case twa.IsPriceActive:
+					active++
+				case uint64(len(twa.PriceValue)) >= N && N > 0:
+					full++
+				default:
+					partial++
+				}
+				tr.Count(fmt.Sprintf("reconf:ring-phase=%d/%d", twa.CurrentIndex, len(twa.PriceValue)))
+				if twa.AssetID == script {
+					isAsset = true
+				}
+			}
+			if err := w.proposal(N2, acc2, script); err != nil {
+				t.Fatal(err)
+			}
+			tr.Line("feed.configure", i64(height), u(N2), i64(acc2), u(script), c17BandState(app, ctx), c17Books(app, ctx))
+			tr.Count(fmt.Sprintf("reconf:N-%s", []string{"shrinks", "same", "grows"}[cmpInt(int(N2), int(N))+1]))
+			if !configured {
+				tr.Count("reconf:first-proposal-after-genesis")
+			}
+			tr.Count(fmt.Sprintf("reconf:windows-found active=%v inactive-full=%v partial=%v", active > 0, full > 0, partial > 0))
+			tr.Count(fmt.Sprintf("reconf:script-id-is-a-stored-key=%v", isAsset))
+			N, acc, configured = N2, acc2, true
+			lastEvent = "reconfigure"
+			continue
+		}
+		// governance at the end of the block: an asset is added, or an asset's oracle flag is changed
+		if assetLeft > 0 && rng.Chance(100*assetLeft/(steps-i)+2) {
+			assetLeft--
+			h := asset.NewUpdateAssetProposalHandler(app.AssetKeeper)
+			var req bool
+			if rng.Chance(50) {
+				req = rng.Chance(70)
+				p := &assettypes.AddAssetsProposal{Title: "add", Description: "add", Assets: assettypes.Asset{Name: alphaName(w.nNames), Denom: "ua" + u(uint64(w.nNames)),
+					Decimals: sdk.NewInt(1), IsOnChain: true, IsOraclePriceRequired: req}}
+				w.nNames++
+				if err := p.ValidateBasic(); err != nil {
+					t.Fatal(err)
+				}
+				if err := h(ctx, p); err != nil {
+					t.Fatal(err)
+				}
+				tr.Count(fmt.Sprintf("assetchange:add required=%v", req))
+			} else {
+				cands := w.assets[:0:0]
+				for _, a := range w.assets {
+					if a.id != w.debtID {
+						cands = append(cands, a)
+					}
+				}
+				a := cands[rng.Intn(len(cands))]
+				req = !a.required
+				if rng.Chance(25) {
+					req = a.required
+				}
+				p := &assettypes.UpdateAssetProposal{Title: "upd", Description: "upd", Asset: assettypes.Asset{Id: a.id, Name: a.name, Denom: a.denom,
+					Decimals: sdk.NewInt(1), IsOnChain: true, IsOraclePriceRequired: req}}
+				if err := p.ValidateBasic(); err != nil {
+					t.Fatal(err)
+				}
+				if err := h(ctx, p); err != nil {
+					t.Fatal(err)
+				}
+				tr.Count(fmt.Sprintf("assetchange:update required %v->%v", a.required, req))
+			}
+			w.refreshAssets()
+			for j := range w.assets {
+				if w.assets[j].extPair == 0 && w.assets[j].id != w.debtID {
+					w.addProduct(&w.assets[j])
+				}
+			}
+			tr.Line("feed.assetchange", fmt.Sprint(req), c17BandState(app, ctx), w.assetList())
+			lastEvent = "assetchange"
+		}
 	}
+}
+
+// a stored window as a genesis file may list it: mostly what a healthy chain exports (for some window size the importing chain does not
+// know), sometimes a shape no run produces
+func c17GenesisWindow(rng *Rng, id uint64) markettypes.TimeWeightedAverage {
+	n := 1 + rng.Intn(6)
+	vals := make([]uint64, n)
+	var sum uint64
+	for i := range vals {
+		vals[i] = uint64(1 + rng.Intn(1000))
+		sum += vals[i]
+	}
+	tw := markettypes.TimeWeightedAverage{AssetID: id, ScriptID: 12, Twa: sum / uint64(n), CurrentIndex: uint64(rng.Intn(n)), IsPriceActive: rng.Chance(70),
+		PriceValue: vals, DiscardedHeightDiff: -1}
+	switch rng.Intn(6) {
+	case 0:
+		tw.CurrentIndex = uint64(n + rng.Intn(3)) // cursor past the slice
+	case 1:
+		tw.PriceValue = nil // active without samples
+	case 2:
+		tw.DiscardedHeightDiff = int64(1 + rng.Intn(100))
+		tw.IsPriceActive = false
+	}
+	return tw
 }
 
 func cmpInt(a, b int) int {
